@@ -230,7 +230,7 @@ type pending5 struct {
 func c05(args []string) int {
 	f := mustFlags(args)
 	out := evid.New("C05")
-	trees := f.N(5000, 300000)
+	trees := f.N(8000, 300000)
 	zerolog.SetGlobalLevel(zerolog.TraceLevel)
 	for ti := 0; ti < trees; ti++ {
 		if !f.Mine(ti) {
@@ -271,6 +271,7 @@ func c05tree(out *evid.Out, f *evid.Flags, ti int, concurrent bool) {
 		}
 		out.Violate(sig, fmt.Sprintf("tree %d: %s", ti, desc), map[string]interface{}{"check": "c05", "seed": f.Seed, "tier": f.Tier, "index": ti, "tree": strings.Join(path, "; ")})
 	}
+	owner := map[string]*gen.Rec{}
 	// logOne emits one event from n and checks it against n's own derivation path
 	check := func(p *pending5, when string) {
 		ws := p.n.w.W[p.w0:]
@@ -282,17 +283,7 @@ func c05tree(out *evid.Out, f *evid.Flags, ti int, concurrent bool) {
 				mine = append(mine, w)
 			}
 		}
-		// nothing of this id may have reached any *other* writer
-		for _, o := range t.nodes {
-			if o.w == p.n.w {
-				continue
-			}
-			for _, w := range o.w.W {
-				if strings.Contains(string(w.P), `"id":"`+p.id+`"`) {
-					viol("wrong-destination", fmt.Sprintf("%s: event %s of node n%d reached the writer of n%d", when, p.id, p.n.id, o.id))
-				}
-			}
-		}
+		owner[p.id] = p.n.w // checked for every write of every writer at the end of the tree
 		if !enabled {
 			if len(mine) != 0 {
 				viol("level-leak", fmt.Sprintf("%s: node n%d (level %d) wrote a level-%d event", when, p.n.id, p.n.level, p.lvl))
@@ -399,6 +390,28 @@ func c05tree(out *evid.Out, f *evid.Flags, ti int, concurrent bool) {
 			}
 		}
 	}
+	// destination check: every write that carries a known id must sit in the writer of the node that logged it
+	seenW := map[*gen.Rec]bool{}
+	for _, n := range t.nodes {
+		if seenW[n.w] {
+			continue
+		}
+		seenW[n.w] = true
+		for _, w := range n.w.W {
+			i := strings.Index(string(w.P), `"id":"`)
+			if i < 0 {
+				continue
+			}
+			rest := string(w.P[i+6:])
+			j := strings.IndexByte(rest, '"')
+			if j < 0 {
+				continue
+			}
+			if ow, ok := owner[rest[:j]]; ok && ow != n.w {
+				viol("wrong-destination", fmt.Sprintf("event %s reached the writer of node n%d, not the writer of the node that logged it", rest[:j], n.id))
+			}
+		}
+	}
 	nOut, nCtx := 0, 0
 	for _, n := range t.nodes {
 		if n.step == "Output" {
@@ -413,7 +426,7 @@ func c05tree(out *evid.Out, f *evid.Flags, ti int, concurrent bool) {
 		c05concurrent(out, t, ti, r, viol)
 	}
 	out.Case(rng.HashStr(fmt.Sprint(ti, len(t.nodes), evN, f.Seed)), len(t.nodes) >= 4)
-	if ti%(1+f.N(5000, 300000)/5) == 0 {
+	if ti%(1+f.N(8000, 300000)/5) == 0 {
 		var path []string
 		for _, n := range t.nodes {
 			path = append(path, n.desc())
